@@ -536,7 +536,7 @@ func clip(v ref.Value) string {
 var _ = pbt.Register(pbt.Spec[Case]{
 	Property: "C16", Name: "deep-copy",
 	Rule:     "source: value tree (all kinds, caps) in a drawn encoding (1-4 segments, far/double-far), taken as a pointer, as a member of a struct list, or as a member of a 1/2/4/8-byte primitive list; destination: fresh message in 5 arena kinds (small/exact capacities so the copy itself exhausts segments), via SetRoot, Struct.SetPtr, PointerList.Set, List.SetStruct and Struct.CopyFrom into smaller/equal/larger struct sizes; SetStruct/CopyFrom destinations are zeroed or pre-filled with non-default data and pointers; optional second stage copying inside the destination message (CopyFrom, SetStruct, struct-list-member SetPtr, or a member of an 8-byte / 4-byte / pointer list assigned next to its list and the list changed afterwards). Oracle: Marshal of the destination decoded by the independent strict decoder equals the source value with only the top-level struct truncated/zero-extended; all reachable objects pairwise disjoint (no aliasing between copy, source-in-same-message and siblings); the source message's bytes are untouched by the copy and then overwritten with 0xEE before the destination is checked; copied capability pointers index one new table entry each, IsSame as the source client, holding their own reference (Shutdown counts after resetting source then destination). Non-trivial: destination has >=2 segments, sizes differ, or capabilities present.",
-	Quick:    12000, Thorough: 100000,
+	Quick:    12000, Thorough: 400000,
 	Gen: func(t *rapid.T) Case {
 		c := Case{
 			Src:     gen.ValueTree(t, gen.TreeOpts{MaxDepth: rapid.IntRange(0, 3).Draw(t, "depth"), Caps: true, MaxCap: 4, RootStruct: rapid.IntRange(0, 2).Draw(t, "rs") != 0}),
